@@ -3,6 +3,7 @@ package main
 // C01 — List and Array behave as an ordinal-indexed sequence.
 
 import (
+	"sort"
 	"fmt"
 	"go/ast"
 	"go/token"
@@ -102,6 +103,31 @@ func runC01(c *Ctx, r *Rec) {
 	var arrNorm, lstNorm *ast.FuncDecl
 	for _, l := range []layer{{arr, "array", 0}, {lst, "list", 1}} {
 		cands := c.unexportedIntToInt(l.n)
+		// the normaliser is the candidate that the exported methods hand their int index parameters to
+		uses := map[*ast.FuncDecl]int{}
+		for mname, m := range c.methodsOf(l.n) {
+			if !ast.IsExported(mname) {
+				continue
+			}
+			mp := paramObjs(info, m)
+			ast.Inspect(m.Body, func(x ast.Node) bool {
+				call, ok := x.(*ast.CallExpr)
+				if !ok || len(call.Args) != 1 {
+					return true
+				}
+				for _, cand := range cands {
+					if cf := calleeOf(info, call); cf != nil && c.funcOf(cand) != nil && cf.Origin() == c.funcOf(cand).Origin() {
+						for _, p := range mp {
+							if b, ok := p.Type().Underlying().(*types.Basic); ok && b.Kind() == types.Int && isObj(info, call.Args[0], p) {
+								uses[cand]++
+							}
+						}
+					}
+				}
+				return true
+			})
+		}
+		sort.SliceStable(cands, func(i, j int) bool { return uses[cands[i]] > uses[cands[j]] })
 		var bound *ast.FuncDecl
 		for _, fd := range cands {
 			// the normaliser is the func(int) int whose body panics and reads the size
